@@ -204,7 +204,7 @@ type splitCase struct {
 
 var splitValRe = regexp.MustCompile(`^value\s+(\w+)\s+in\s+(\d+)\.\.(\d+)$`)
 
-var splitRe = regexp.MustCompile(`^len\((\w+)\)\s+in\s+(\d+)\.\.(\d+)(\s+else)?$`)
+var splitRe = regexp.MustCompile(`^len\((\w+)\)\s+in\s+(\d+)\.\.(\d+)(\s+else)?(?:\s+step\s+(\d+))?$`)
 
 func (e *Engine) splitCases(c *Contract) []splitCase {
 	cases := []splitCase{{lens: map[string]int64{}}}
@@ -325,8 +325,12 @@ func (e *Engine) splitCases(c *Contract) []splitCase {
 		lo, _ := strconv.ParseInt(m[2], 10, 64)
 		hi, _ := strconv.ParseInt(m[3], 10, 64)
 		var next []splitCase
+		step := int64(1)
+		if len(m) > 5 && m[5] != "" {
+			step, _ = strconv.ParseInt(m[5], 10, 64)
+		}
 		for _, base := range cases {
-			for l := lo; l <= hi; l++ {
+			for l := lo; l <= hi; l += step {
 				nc := splitCase{label: base.label, lens: map[string]int64{}, assume: base.assume}
 				for k, v := range base.lens {
 					nc.lens[k] = v
